@@ -8,6 +8,7 @@ import random
 INT, FLOAT, BOOL, STR = "int", "float", "bool", "str"
 LINT, LSTR, DSI = ("list", "int"), ("list", "str"), ("dict", "str", "int")
 OINT = ("opt", "int")
+LFLOAT = ("list", "float")
 WORDS = ["a", "bc", "Hello", "wörld", "x y", "", "€5", "𝄞", "aXbXc", "  pad ", "zz", "Incan", "q,r,s", "MiXeD"]
 KEYS = ["k1", "k2", "alpha", "b", "zz"]
 
@@ -384,6 +385,8 @@ class Gen:
             return self.e_list_int(d)
         if ty == LSTR:
             return self.e_list_str(d)
+        if ty == LFLOAT:
+            return ("list", [("float", self.r.choice([0.5, 1.5, 2.0, 4.0, 0.25, 3.0, 7.5, 10.0])) for _ in range(self.r.randint(1, 4))])
         if ty == DSI:
             return self.e_dict(d)
         if ty == OINT:
@@ -398,6 +401,23 @@ class Gen:
 
     def call_of(self, ty, d):
         fs = [f for f in self.funcs if f[2] == ty and f[0] != self.in_func]
+        lfs = [f for f in getattr(self, "list_funcs", []) if f[2] == ty and f[0] != self.in_func]
+        if lfs and (not fs or self.r.random() < 0.5):
+            name, lt, _ret, is_mut = self.r.choice(lfs)
+            arg = None
+            if is_mut:
+                # a `mut` parameter aliases the caller's (mutable) list; only at statement level: inside `v.append(f(v))` the
+                # argument would borrow the receiver a second time (rustc E0499, open finding C02-mut-argument-aliases-receiver)
+                vs = self.vars_of(lt, True) if d == 0 else []
+                if vs:
+                    arg = ("var", self.r.choice(vs))
+                    self.feat.add("fn.mut_list_param")
+            else:
+                elem = (lambda: ("int", self.r.randint(-5, 9))) if lt == LINT else (lambda: ("float", self.r.choice([0.5, 1.5, 2.0, 4.0, 0.25, 3.0, 7.5])))
+                arg = ("list", [elem() for _ in range(self.r.randint(1, 4))])
+            if arg is not None:
+                self.feat.add("fn.list_param")
+                return ("call", name, [arg])
         if not fs:
             return None
         name, ptys, _ = self.r.choice(fs)
@@ -505,7 +525,7 @@ class Gen:
             return [("print", e)]
         if ty == BOOL:
             return [("printb", e)]
-        if ty in (LINT, LSTR):
+        if ty in (LINT, LSTR, LFLOAT):
             v = self.fresh("it")
             return [("print", ("len", e)), ("for", v, e, [("print", ("var", v))])]
         if ty == DSI:
@@ -570,6 +590,8 @@ class Gen:
     def new_var_stmt(self, d):
         r = self.r
         tys = [INT] * 5 + [STR] * 3 + [FLOAT] * 2 + [BOOL] * 2 + [LINT] * 2 + [LSTR, DSI, OINT]
+        if "decl.list_float" not in self.avoid:
+            tys.append(LFLOAT)
         tys += [("model", m[0]) for m in self.models] * 2 + [("enum", e[0]) for e in self.enums]
         if self.models and "decl.list_of_models" not in self.avoid:
             tys += [("list", ("model", m[0])) for m in self.models]
@@ -587,7 +609,7 @@ class Gen:
             return None  # `v = w.name` moves the field out of w (known finding C02-str-ownership)
         name = self.fresh()
         kind = self.pick([("let.inferred", 4, lambda: "inferred"), ("let.let", 1.5, lambda: "let"), ("let.mut", 4, lambda: "mut")])
-        annotate = self.on("let.annotated", 0.35) or (ty in (LINT, LSTR, DSI, OINT) and e[0] in ("list", "dict", "none") )
+        annotate = self.on("let.annotated", 0.35) or (ty in (LINT, LSTR, DSI, OINT, LFLOAT) and e[0] in ("list", "dict", "none") )
         from incanref import pp_type  # noqa
         st = ("let", kind, name, ty if annotate else None, e)
         self.declare(name, ty, kind == "mut")
@@ -758,9 +780,19 @@ class Gen:
         arms = []
         for lit in self.r.sample([0, 1, 2, 3, 5], self.r.randint(1, 3)):
             arms.append((("lit", ("int", lit)), [("print", ("str", "is%d" % lit))]))
+        guarded = self.on("match.guard", 0.3)
+        if guarded:
+            g = self.fresh("m")
+            gv = ("var", g)
+            conds = [lambda: ("cmp", self.r.choice([">", "<", ">="]), gv, ("int", self.r.randint(0, 6))),
+                     lambda: ("cmp", "==", ("bin", "%", gv, ("int", 2)), ("int", self.r.randint(0, 1)))]
+            if self.on("match.guard_set", 0.5):
+                conds = [lambda: ("in", self.r.random() < 0.3, gv, ("set", [("int", x) for x in self.r.sample(range(0, 9), self.r.randint(1, 3))]))]
+            arms.append((("guard", ("bind", g), self.r.choice(conds)()), [("print", ("str", "guarded")), ("print", gv)]))
         b = self.fresh("m")
         arms.append(self.r.choice([(("wild",), [("print", ("str", "other"))]), (("bind", b), [("print", ("var", b))])]))
-        return [("match", subj, arms, "case" if self.on("match.case_style", 0.3) else "arrow")]
+        # guards exist in the `case P if g:` spelling only
+        return [("match", subj, arms, "case" if guarded or self.on("match.case_style", 0.3) else "arrow")]
 
     def shadow_block(self, d):
         """Nested block that (a) reassigns an outer mut variable and (b) introduces a block-local name reused after the block."""
@@ -809,6 +841,36 @@ class Gen:
                 self.funcs.append((name, ptys[:-1], ret))
             else:
                 self.funcs.append((name, ptys, ret))
+        self.list_funcs = []
+        if self.on("fn.list_param", 0.5):
+            # reductions over a numeric list that arrives as a parameter - by value, or as a `mut` parameter that aliases the caller's list
+            for k in range(r.randint(1, 2)):
+                T = r.choice([INT, FLOAT])
+                lt = LINT if T == INT else LFLOAT
+                is_mut = "fn.mut_list_param" not in self.avoid and r.random() < 0.5
+                lit = (lambda: ("int", r.randint(0, 9))) if T == INT else (lambda: ("float", r.choice([0.5, 1.5, 2.0, 9.5])))
+                xs = ("var", "xs")
+                body = []
+                if is_mut:
+                    body.append(r.choice([("setidx", xs, ("int", 0), lit()), ("expr", ("mcall", xs, "append", [lit()]))]))
+                red = r.choice(["min", "max", "sum", "first", "spread", "sorted0", "len"])
+                if red == "sum" and T == FLOAT:
+                    red = "max"  # the checker types sum() as int whatever the element type: the program would be rejected
+                ret = T
+                if red in ("min", "max", "sum"):
+                    e = ("builtin", red, [xs])
+                elif red == "first":
+                    e = ("idx", "list", xs, ("int", 0))
+                elif red == "spread":
+                    e = ("bin", "-", ("builtin", "max", [xs]), ("builtin", "min", [xs]))
+                elif red == "sorted0":
+                    e = ("idx", "list", ("builtin", "sorted", [xs]), ("int", 0))
+                else:
+                    e, ret = ("len", xs), INT
+                body.append(("return", e))
+                name = P + "agg%d" % k
+                self.decls.append({"kind": "func", "name": name, "params": [("xs", lt, None, is_mut)], "ret": ret, "body": body})
+                self.list_funcs.append((name, lt, ret, is_mut))
         if self.on("fn.recursive", 0.3):
             name = P + "rec"
             body = [("if", [(("cmp", "<=", ("var", "n"), ("int", 1)), [("return", ("int", 1))])], None),
@@ -896,6 +958,15 @@ class Gen:
             body.append(("let", "mut", name, None, self.e_of(ty, 0)))
             self.declare(name, ty, True)
             self.feat.add("decl.list_of_models")
+        for (fname, lt, fret, is_mut) in getattr(self, "list_funcs", []):
+            if is_mut and self.r.random() < 0.7:
+                # a mutable list handed to a `mut` parameter: the callee's writes are the caller's
+                name = self.fresh()
+                body.append(("let", "mut", name, lt, self.e_of(lt, 0) if lt == LFLOAT else ("list", [("int", self.r.randint(0, 9)) for _ in range(self.r.randint(1, 4))])))
+                self.declare(name, lt, True)
+                self.feat.add("fn.mut_list_param")
+                self.feat.add("fn.list_param")
+                body += self.print_of(fret, ("call", fname, [("var", name)])) + self.print_of(lt, ("var", name))
         seeded = len(body) > 0
         for k in range(n):
             if seeded and k in (1, 3) and self.r.random() < 0.6:
